@@ -164,6 +164,7 @@ const maxPreemptions = 2
 type muSt struct {
 	writer  bool
 	readers int
+	waiters []*gor // goroutines parked until the next release of this mutex
 }
 
 // otherOps: operation threads (and goroutines they spawned) that could run instead of the current one.
@@ -186,12 +187,24 @@ func (ex *Exec) muAcquireRelease(mu *Cell, kind int) {
 	}
 	wait := func(busy func() bool) {
 		for busy() {
+			// park until the mutex is released: a waiter is not runnable, so that two waiters can
+			// not hand the processor to each other for ever while the holder never runs
+			g := ex.curG
+			g.blocked = true
+			st.waiters = append(st.waiters, g)
 			o := ex.otherRunnable()
 			if len(o) == 0 {
+				g.blocked = false
 				panic(pathEnd{kind: "deadlock", msg: "goroutine waits for a mutex that no runnable goroutine can release"})
 			}
 			ex.switchTo(o[0])
 		}
+	}
+	release := func() {
+		for _, w := range st.waiters {
+			w.blocked = false
+		}
+		st.waiters = nil
 	}
 	switch kind {
 	case evLock:
@@ -202,16 +215,22 @@ func (ex *Exec) muAcquireRelease(mu *Cell, kind int) {
 		st.readers++
 	case evUnlock:
 		st.writer = false
+		release()
 	case evRUnlock:
 		if st.readers > 0 {
 			st.readers--
 		}
+		release()
 	}
 }
 
 // maybePreempt: a scheduling point after a critical section.
 func (ex *Exec) maybePreempt() {
-	if ex.preemptions >= maxPreemptions {
+	bound := maxPreemptions
+	if ex.schedBound > 0 {
+		bound = ex.schedBound
+	}
+	if ex.preemptions >= bound {
 		return
 	}
 	o := ex.otherRunnable()
@@ -320,6 +339,14 @@ func registerEventAPI() {
 			ex.switchTo(next)
 		}
 		ex.opGors = nil
+		return nil
+	}
+	// vSchedBound(n): context bound (scheduling decisions other than run-to-completion) for the
+	// vConcurrently calls that follow on this path
+	apiFns["vSchedBound"] = func(ex *Exec, fn *ssa.Function, a []Value) Value {
+		if t, ok := a[0].(*Term); ok && t.IsConst() {
+			ex.schedBound = int(t.val)
+		}
 		return nil
 	}
 	apiFns["vRaceCheck"] = func(ex *Exec, fn *ssa.Function, a []Value) Value {
